@@ -281,7 +281,7 @@ class GeoIndex:
             [build_point, query_point]
             for query_point, build_points in enumerate(jagged_pairs)
             for build_point in build_points
-        ]).T
+        ], dtype=int).reshape(-1, 2).T
 
         if not return_distance:
             if self.shuffler is not None and pairs.size:
